@@ -1,2 +1,546 @@
-import BsVerif.Model.Breakpoint
-/-! # C01 (theorems follow) -/
+import BsVerif.Lemmas.Breakpoint
+/-!
+# C01 — breakpoint stops are exactly the projection of the real execution
+
+Property theorems about the model `BsVerif/Model/Breakpoint.lean` (mirror of `BreakpointRegistry`,
+`Breakpoint::{enable,disable}`, `step_over_breakpoint`, `continue_execution`).  Everything is proved for ALL
+traces `τ`, ALL original texts `orig`, ALL exit codes and ALL operation lists, by invariants and induction
+(helper lemmas: `BsVerif/Lemmas/Breakpoint.lean`).
+
+## The specification (read this first)
+
+An abstract debugger that knows nothing about INT3, saved bytes, registries or step-over: it only has the *set* `B`
+of user breakpoint addresses, the position `idx` in the native trace `τ` and a status.
+-/
+namespace BsVerif.Bp
+open BsVerif.Mem
+
+structure Spec where
+  B : List Addr := []          -- user breakpoints currently set (used as a set)
+  late : List Addr := []       -- breakpoints added after the debuggee exited (see the note at `Spec.step`)
+  idx : Nat := 0               -- position in `τ` at which the debuggee is stopped
+  status : Status := .unload
+
+/-- first position `j ≥ i` of `τ` whose address is in `B`; `τ.length` if there is none
+(`firstFrom` is defined in the model file; `C01_nextHit_is_first` below says it is what its name says) -/
+def nextHit (B : List Addr) (τ : List Addr) (i : Nat) : Nat := firstFrom (fun a => decide (a ∈ B)) τ i
+
+/-- run to the first position `≥ i` with a breakpoint and stop there; exit if there is none -/
+def Spec.goto (τ : List Addr) (exitCode : Nat) (sp : Spec) (i : Nat) : Spec × Out :=
+  match τ[nextHit sp.B τ i]? with
+  | some a => ({ sp with idx := nextHit sp.B τ i, status := .inProgress }, .stop a)
+  | none => ({ sp with idx := nextHit sp.B τ i, status := .exited }, .exit exitCode)
+
+/-- one command.  Note on `exited`: when the debuggee exits, the real registry moves its breakpoints to the
+"uninit" list under *global* address keys, while `break`/`remove` by address use *relocated* keys; so after the exit
+`remove a` answers `none` for the breakpoints set before, and only finds those added since (`late`). -/
+def Spec.step (τ : List Addr) (exitCode : Nat) (sp : Spec) : Op → Spec × Out
+  | .brk a => match sp.status with
+    | .exited => ({ sp with late := a :: sp.late }, .ok)
+    | _ => ({ sp with B := a :: sp.B }, .ok)
+  | .remove a => match sp.status with
+    | .exited => ({ sp with late := sp.late.filter (· != a) }, if a ∈ sp.late then .ok else .none)
+    | _ => ({ sp with B := sp.B.filter (· != a) }, if a ∈ sp.B then .ok else .none)
+  | .start => match sp.status with
+    | .unload => sp.goto τ exitCode 0
+    | _ => (sp, .err)
+  | .cont => match sp.status with
+    | .inProgress => sp.goto τ exitCode (sp.idx + 1)
+    | _ => (sp, .err)
+
+def Spec.run (τ : List Addr) (exitCode : Nat) (sp : Spec) : List Op → Spec × List Out
+  | [] => (sp, [])
+  | op :: ops =>
+    let (sp1, o) := sp.step τ exitCode op
+    let (sp2, os) := Spec.run τ exitCode sp1 ops
+    (sp2, o :: os)
+
+/-- `nextHit` is the first position at or after `i` whose address is in `B` -/
+theorem C01_nextHit_is_first (B τ : List Addr) (i : Nat) (hi : i ≤ τ.length) :
+    i ≤ nextHit B τ i ∧ nextHit B τ i ≤ τ.length ∧
+    (∀ h : nextHit B τ i < τ.length, τ[nextHit B τ i] ∈ B) ∧
+    (∀ k, i ≤ k → k < nextHit B τ i → ∀ hk : k < τ.length, τ[k] ∉ B) := by
+  refine ⟨firstFrom_ge _ _ _ hi, firstFrom_le _ _ _, fun h => ?_, fun k h1 h2 hk => ?_⟩
+  · exact of_decide_eq_true (firstFrom_hit (fun a => decide (a ∈ B)) τ i h)
+  · exact of_decide_eq_false (firstFrom_min (fun a => decide (a ∈ B)) τ i k h1 h2 hk)
+
+/-! ## Hypotheses of the projection theorem -/
+
+/-- the user never sets a breakpoint at the ELF entry address: `add_and_enable` would replace the debugger's internal
+entry-point breakpoint there (same key), which the `continue_execution` loop never reports.
+(On the real debugger a user breakpoint needs a DWARF line-table place at its address — `PlaceNotFound` otherwise —
+which `_start` normally lacks; the model's `break` assumes the address has one, as all addresses used in the
+correspondence run do.  See `C01_continue_projection_counterexample_break_at_entry`.) -/
+def NoBreakAtEntry (entry : Addr) (ops : List Op) : Prop := ∀ op ∈ ops, op ≠ .brk entry
+
+/-- ... and never removes "the breakpoint at the entry address": `remove_by_addr` does not look at the kind, so it
+answers `ok` and deletes the internal entry-point breakpoint (reproduced on the real debugger; see
+`C01_continue_projection_counterexample_remove_at_entry`) -/
+def NoRemoveAtEntry (entry : Addr) (ops : List Op) : Prop := ∀ op ∈ ops, op ≠ .remove entry
+
+instance (entry ops) : Decidable (NoBreakAtEntry entry ops) := by unfold NoBreakAtEntry; infer_instance
+instance (entry ops) : Decidable (NoRemoveAtEntry entry ops) := by unfold NoRemoveAtEntry; infer_instance
+
+/-! ## The refinement relation and the simulation -/
+
+/-- model state `s` refines spec state `sp` (`Fresh`/`Live`/`Gone`: see `Lemmas/Breakpoint.lean` §5-6) -/
+def Sim (τ : List Addr) (exitCode : Nat) (orig : Code) (entry : Addr) (s : St) (sp : Spec) : Prop :=
+  s.τ = τ ∧ s.exitCode = exitCode ∧
+  match sp.status with
+  | .unload => Fresh orig entry sp.B s ∧ sp.late = []
+  | .inProgress => Live orig entry sp.B s ∧ s.idx = sp.idx ∧ s.idx < τ.length ∧ sp.late = []
+  | .exited => Gone sp.late s
+
+theorem C01_sim_status {τ x orig entry s sp} (h : Sim τ x orig entry s sp) : s.status = sp.status := by
+  obtain ⟨_, _, hm⟩ := h
+  cases hs : sp.status <;> rw [hs] at hm
+  · exact hm.1.st
+  · exact hm.1.st
+  · exact hm.st
+
+private theorem Sim.unload {τ x orig entry s sp} (hτ : s.τ = τ) (hx : s.exitCode = x) (hs : sp.status = .unload)
+    (hf : Fresh orig entry sp.B s) (hl : sp.late = []) : Sim τ x orig entry s sp :=
+  ⟨hτ, hx, by rw [hs]; exact ⟨hf, hl⟩⟩
+
+private theorem Sim.live {τ x orig entry s sp} (hτ : s.τ = τ) (hx : s.exitCode = x) (hs : sp.status = .inProgress)
+    (hf : Live orig entry sp.B s) (hi : s.idx = sp.idx) (hlt : s.idx < τ.length) (hl : sp.late = []) :
+    Sim τ x orig entry s sp :=
+  ⟨hτ, hx, by rw [hs]; exact ⟨hf, hi, hlt, hl⟩⟩
+
+private theorem Sim.gone {τ x orig entry s sp} (hτ : s.τ = τ) (hx : s.exitCode = x) (hs : sp.status = .exited)
+    (hf : Gone sp.late s) : Sim τ x orig entry s sp :=
+  ⟨hτ, hx, by rw [hs]; exact hf⟩
+
+/-- one command: same answer, and the refinement relation is kept -/
+theorem C01_simulation_step (τ : List Addr) (x : Nat) (orig : Code) (entry : Addr)
+    (ho : Bytes orig) (hcc : ∀ a ∈ τ, orig a ≠ 0xCC) (hhead : τ.head? = some entry)
+    (s : St) (sp : Spec) (h : Sim τ x orig entry s sp) (op : Op)
+    (hb : op ≠ .brk entry) (hr : op ≠ .remove entry) :
+    (exec s op).2 = (sp.step τ x op).2 ∧ Sim τ x orig entry (exec s op).1 (sp.step τ x op).1 := by
+  obtain ⟨rfl, rfl, hm⟩ := h
+  cases hs : sp.status with
+  | unload =>
+    rw [hs] at hm
+    obtain ⟨hf, hl⟩ := hm
+    cases op with
+    | brk a =>
+      obtain ⟨r1, r2, r3, r4⟩ := exec_brk_fresh hf a (fun e => hb (e ▸ rfl))
+      have e : sp.step s.τ s.exitCode (.brk a) = ({ sp with B := a :: sp.B }, .ok) := by
+        simp only [Spec.step, hs]
+      rw [e]; exact ⟨r1, Sim.unload r3 r4 hs r2 hl⟩
+    | remove a =>
+      obtain ⟨r1, r2, r3, r4⟩ := exec_remove_fresh hf a
+      have e : sp.step s.τ s.exitCode (.remove a)
+          = ({ sp with B := sp.B.filter (· != a) }, if a ∈ sp.B then .ok else .none) := by
+        simp only [Spec.step, hs]
+      rw [e]; exact ⟨r1, Sim.unload r3 r4 hs r2 hl⟩
+    | start =>
+      obtain ⟨r1, r2, r3, r4, r5, r6⟩ := exec_start_fresh ho hf hcc hhead
+      have e : sp.step s.τ s.exitCode .start = sp.goto s.τ s.exitCode 0 := by simp only [Spec.step, hs]
+      rw [e]; unfold Spec.goto nextHit
+      cases hj : s.τ[firstFrom (fun a => decide (a ∈ sp.B)) s.τ 0]? with
+      | none =>
+        have hge := List.getElem?_eq_none_iff.mp hj
+        exact ⟨by rw [r4]; simp only [answerAt, hj], Sim.gone r1 r2 rfl (hl ▸ r6 hge)⟩
+      | some a =>
+        have hlt := (List.getElem?_eq_some_iff.mp hj).1
+        exact ⟨by rw [r4]; simp only [answerAt, hj],
+          Sim.live r1 r2 rfl (r5 hlt) r3 (by rw [r3]; exact hlt) hl⟩
+    | cont =>
+      rw [exec_cont_fresh hf]
+      have e : sp.step s.τ s.exitCode .cont = (sp, .err) := by simp only [Spec.step, hs]
+      rw [e]; exact ⟨rfl, Sim.unload rfl rfl hs hf.pokes hl⟩
+  | inProgress =>
+    rw [hs] at hm
+    obtain ⟨hf, hi, hlt, hl⟩ := hm
+    cases op with
+    | brk a =>
+      obtain ⟨r1, r2, r3, r4, r5⟩ := exec_brk_live ho hf a (fun e => hb (e ▸ rfl))
+      have e : sp.step s.τ s.exitCode (.brk a) = ({ sp with B := a :: sp.B }, .ok) := by
+        simp only [Spec.step, hs]
+      rw [e]; exact ⟨r1, Sim.live r3 r4 hs r2 (r5.trans hi) (by rw [r5]; exact hlt) hl⟩
+    | remove a =>
+      obtain ⟨r1, r2, r3, r4, r5, _⟩ := exec_remove_live ho hf a (fun e => hr (e ▸ rfl))
+      have e : sp.step s.τ s.exitCode (.remove a)
+          = ({ sp with B := sp.B.filter (· != a) }, if a ∈ sp.B then .ok else .none) := by
+        simp only [Spec.step, hs]
+      rw [e]; exact ⟨r1, Sim.live r3 r4 hs r2 (r5.trans hi) (by rw [r5]; exact hlt) hl⟩
+    | start =>
+      rw [exec_start_live hf]
+      have e : sp.step s.τ s.exitCode .start = (sp, .err) := by simp only [Spec.step, hs]
+      rw [e]; exact ⟨rfl, Sim.live rfl rfl hs hf.pokes hi hlt hl⟩
+    | cont =>
+      obtain ⟨r1, r2, r3, r4, r5, r6⟩ := exec_cont_live ho hf hcc hlt
+      have e : sp.step s.τ s.exitCode .cont = sp.goto s.τ s.exitCode (sp.idx + 1) := by
+        simp only [Spec.step, hs]
+      rw [e, ← hi]; unfold Spec.goto nextHit
+      cases hj : s.τ[firstFrom (fun a => decide (a ∈ sp.B)) s.τ (s.idx + 1)]? with
+      | none =>
+        have hge := List.getElem?_eq_none_iff.mp hj
+        exact ⟨by rw [r4]; simp only [answerAt, hj], Sim.gone r1 r2 rfl (hl ▸ r6 hge)⟩
+      | some a =>
+        have hlt' := (List.getElem?_eq_some_iff.mp hj).1
+        exact ⟨by rw [r4]; simp only [answerAt, hj],
+          Sim.live r1 r2 rfl (r5 hlt') r3 (by rw [r3]; exact hlt') hl⟩
+  | exited =>
+    rw [hs] at hm
+    cases op with
+    | brk a =>
+      obtain ⟨r1, r2, r3, r4⟩ := exec_brk_gone hm a
+      have e : sp.step s.τ s.exitCode (.brk a) = ({ sp with late := a :: sp.late }, .ok) := by
+        simp only [Spec.step, hs]
+      rw [e]; exact ⟨r1, Sim.gone r3 r4 hs r2⟩
+    | remove a =>
+      obtain ⟨r1, r2, r3, r4⟩ := exec_remove_gone hm a
+      have e : sp.step s.τ s.exitCode (.remove a)
+          = ({ sp with late := sp.late.filter (· != a) }, if a ∈ sp.late then .ok else .none) := by
+        simp only [Spec.step, hs]
+      rw [e]; exact ⟨r1, Sim.gone r3 r4 hs r2⟩
+    | start =>
+      rw [exec_start_gone hm]
+      have e : sp.step s.τ s.exitCode .start = (sp, .err) := by simp only [Spec.step, hs]
+      rw [e]; exact ⟨rfl, Sim.gone rfl rfl hs hm.pokes⟩
+    | cont =>
+      rw [exec_cont_gone hm]
+      have e : sp.step s.τ s.exitCode .cont = (sp, .err) := by simp only [Spec.step, hs]
+      rw [e]; exact ⟨rfl, Sim.gone rfl rfl hs hm.pokes⟩
+
+/-! ## Whole histories -/
+
+private theorem run_cons (τ x) (sp : Spec) (op : Op) (ops : List Op) :
+    Spec.run τ x sp (op :: ops) = ((Spec.run τ x (sp.step τ x op).1 ops).1,
+      (sp.step τ x op).2 :: (Spec.run τ x (sp.step τ x op).1 ops).2) := rfl
+
+/-- **simulation, from any pair of related states**: same answers, related end states -/
+theorem C01_simulation (τ : List Addr) (x : Nat) (orig : Code) (entry : Addr)
+    (ho : Bytes orig) (hcc : ∀ a ∈ τ, orig a ≠ 0xCC) (hhead : τ.head? = some entry) :
+    ∀ (ops : List Op) (s : St) (sp : Spec), Sim τ x orig entry s sp →
+      NoBreakAtEntry entry ops → NoRemoveAtEntry entry ops →
+      (execAll s ops).2 = (Spec.run τ x sp ops).2 ∧
+      Sim τ x orig entry (execAll s ops).1 (Spec.run τ x sp ops).1 := by
+  intro ops
+  induction ops with
+  | nil => intro s sp h _ _; exact ⟨rfl, h⟩
+  | cons op ops ih =>
+    intro s sp h hb hr
+    obtain ⟨h1, h2⟩ := C01_simulation_step τ x orig entry ho hcc hhead s sp h op
+      (hb op List.mem_cons_self) (hr op List.mem_cons_self)
+    obtain ⟨i1, i2⟩ := ih _ _ h2 (fun o ho' => hb o (List.mem_cons_of_mem _ ho'))
+      (fun o ho' => hr o (List.mem_cons_of_mem _ ho'))
+    rw [execAll_cons, run_cons]
+    exact ⟨by show _ :: _ = _ :: _; rw [h1, i1], i2⟩
+
+theorem C01_sim_init (τ : List Addr) (x : Nat) (orig : Code) (entry : Addr) :
+    Sim τ x orig entry (init τ entry orig x) {} :=
+  Sim.unload rfl rfl rfl (init_fresh τ entry orig x) rfl
+
+/-- **C01_continue_projection.**  For every native trace `τ` that starts at the ELF entry address, every original
+text without an `int3` of its own on the trace, every exit code and every command history that does not put or
+remove a breakpoint *at the entry address*, the debugger model answers exactly like the specification: `start` and
+`continue` stop at the successive first positions whose address is a user breakpoint *currently* set, report the
+true pc `τ[j]`, and report the exit (with the exit code) when there is no such position. -/
+theorem C01_continue_projection (τ : List Addr) (entry : Addr) (orig : Code) (exitCode : Nat) (ops : List Op)
+    (ho : Bytes orig) (hcc : ∀ a ∈ τ, orig a ≠ 0xCC) (hhead : τ.head? = some entry)
+    (hb : NoBreakAtEntry entry ops) (hr : NoRemoveAtEntry entry ops) :
+    (execAll (init τ entry orig exitCode) ops).2 = (Spec.run τ exitCode {} ops).2 :=
+  (C01_simulation τ exitCode orig entry ho hcc hhead ops _ _ (C01_sim_init τ exitCode orig entry) hb hr).1
+
+private theorem spec_step_out (τ x) (sp : Spec) (op : Op) :
+    (sp.step τ x op).2 ≠ .corrupt ∧ (sp.step τ x op).2 ≠ .outOfFuel := by
+  cases op <;> cases hs : sp.status <;> simp only [Spec.step, Spec.goto] <;>
+    (try split) <;> (try split) <;> simp
+
+private theorem spec_run_out (τ x) : ∀ (ops : List Op) (sp : Spec), ∀ o ∈ (Spec.run τ x sp ops).2,
+    o ≠ .corrupt ∧ o ≠ .outOfFuel := by
+  intro ops
+  induction ops with
+  | nil => intro sp o ho; cases ho
+  | cons op ops ih =>
+    intro sp o ho
+    rw [run_cons] at ho
+    rcases List.mem_cons.mp ho with rfl | ho
+    · exact spec_step_out τ x sp op
+    · exact ih _ o ho
+
+/-- in particular the debugger never meets a SIGTRAP without a registered breakpoint, and the loop of
+`continue_execution` always terminates within the fuel -/
+theorem C01_no_corrupt_no_outOfFuel (τ : List Addr) (entry : Addr) (orig : Code) (exitCode : Nat) (ops : List Op)
+    (ho : Bytes orig) (hcc : ∀ a ∈ τ, orig a ≠ 0xCC) (hhead : τ.head? = some entry)
+    (hb : NoBreakAtEntry entry ops) (hr : NoRemoveAtEntry entry ops) :
+    ∀ o ∈ (execAll (init τ entry orig exitCode) ops).2, o ≠ .corrupt ∧ o ≠ .outOfFuel := by
+  rw [C01_continue_projection τ entry orig exitCode ops ho hcc hhead hb hr]
+  exact spec_run_out τ exitCode ops {}
+
+/-! ## The patch invariant -/
+
+/-- text = original text with `0xCC` exactly at the addresses of enabled registered breakpoints (while the debuggee
+process exists), every saved byte is the original byte at its address, registry addresses are pairwise distinct, and
+(at a prompt) every registered breakpoint is enabled -/
+structure PatchInv (orig : Code) (s : St) : Prop where
+  text : s.status ≠ .exited →
+    ∀ a, s.code a = if s.active.any (fun b => b.addr == a && b.enabled) then 0xCC else orig a
+  saved : ∀ b ∈ s.active, b.saved = orig b.addr
+  distinct : (s.active.map (·.addr)).Nodup
+  enabled : ∀ b ∈ s.active, b.enabled = true
+
+private theorem patchInv_of_ginv {orig s} (h : GInv orig s) : PatchInv orig s := by
+  by_cases hs : s.status = .exited
+  · have := h.dead hs
+    refine ⟨fun hne => absurd hs hne, ?_, ?_, ?_⟩ <;> rw [this]
+    · intro b hb; cases hb
+    · exact List.nodup_nil
+    · intro b hb; cases hb
+  · have hi := h.live hs
+    exact ⟨fun _ => hi.text, hi.saved, hi.nodup, hi.allEn⟩
+
+/-- **C01_patch_inv.**  After every command history whatsoever (any trace, any entry address, double adds at one
+address, removals of anything, ...) the patch invariant holds.  No hypothesis except that `orig` is made of bytes. -/
+theorem C01_patch_inv (τ : List Addr) (entry : Addr) (orig : Code) (exitCode : Nat) (ops : List Op)
+    (ho : Bytes orig) : PatchInv orig (execAll (init τ entry orig exitCode) ops).1 :=
+  patchInv_of_ginv (execAll_ginv ho ops _ (init_ginv τ entry orig exitCode)).1
+
+/-! ## Corollaries of the projection theorem -/
+
+private theorem spec_goto_stop (τ x) (sp : Spec) (i : Nat) (a : Addr) (h : (sp.goto τ x i).2 = .stop a) : a ∈ sp.B := by
+  unfold Spec.goto at h
+  cases hj : τ[nextHit sp.B τ i]? with
+  | none => rw [hj] at h; cases h
+  | some b =>
+    rw [hj] at h
+    have hb : b = a := by simpa using h
+    obtain ⟨hlt, hb'⟩ := List.getElem?_eq_some_iff.mp hj
+    rw [← hb, ← hb']
+    exact of_decide_eq_true (firstFrom_hit (fun a => decide (a ∈ sp.B)) τ i hlt)
+
+private theorem spec_goto_B (τ x) (sp : Spec) (i : Nat) : (sp.goto τ x i).1.B = sp.B := by
+  unfold Spec.goto; split <;> rfl
+
+/-- spec states in which `a` can no longer be reported -/
+private def Cleared (a : Addr) (sp : Spec) : Prop := sp.status = .exited ∨ a ∉ sp.B
+
+private theorem cleared_step (τ x) (a : Addr) (sp : Spec) (h : Cleared a sp) (op : Op) (hop : op ≠ .brk a) :
+    Cleared a (sp.step τ x op).1 ∧ (sp.step τ x op).2 ≠ .stop a := by
+  cases hs : sp.status with
+  | exited =>
+    cases op <;> simp only [Spec.step, hs] <;> refine ⟨Or.inl (by first | rfl | exact hs), ?_⟩ <;> (try split) <;> simp
+  | unload =>
+    have ha : a ∉ sp.B := by rcases h with h | h; · rw [hs] at h; cases h
+                             · exact h
+    cases op with
+    | brk b =>
+      simp only [Spec.step, hs]
+      refine ⟨Or.inr ?_, by simp⟩
+      intro hm; rcases List.mem_cons.mp hm with e | hm
+      · exact hop (e ▸ rfl)
+      · exact ha hm
+    | remove b =>
+      simp only [Spec.step, hs]
+      exact ⟨Or.inr (fun hm => ha (List.mem_filter.mp hm).1), by split <;> simp⟩
+    | start =>
+      simp only [Spec.step, hs]
+      exact ⟨Or.inr (by rw [spec_goto_B]; exact ha), fun e => ha (spec_goto_stop τ x sp 0 a e)⟩
+    | cont => simp only [Spec.step, hs]; exact ⟨Or.inr ha, by simp⟩
+  | inProgress =>
+    have ha : a ∉ sp.B := by rcases h with h | h; · rw [hs] at h; cases h
+                             · exact h
+    cases op with
+    | brk b =>
+      simp only [Spec.step, hs]
+      refine ⟨Or.inr ?_, by simp⟩
+      intro hm; rcases List.mem_cons.mp hm with e | hm
+      · exact hop (e ▸ rfl)
+      · exact ha hm
+    | remove b =>
+      simp only [Spec.step, hs]
+      exact ⟨Or.inr (fun hm => ha (List.mem_filter.mp hm).1), by split <;> simp⟩
+    | start => simp only [Spec.step, hs]; exact ⟨Or.inr ha, by simp⟩
+    | cont =>
+      simp only [Spec.step, hs]
+      exact ⟨Or.inr (by rw [spec_goto_B]; exact ha), fun e => ha (spec_goto_stop τ x sp _ a e)⟩
+
+private theorem cleared_run (τ x) (a : Addr) : ∀ (ops : List Op) (sp : Spec), Cleared a sp → .brk a ∉ ops →
+    ∀ o ∈ (Spec.run τ x sp ops).2, o ≠ .stop a := by
+  intro ops
+  induction ops with
+  | nil => intro sp _ _ o ho; cases ho
+  | cons op ops ih =>
+    intro sp h hn o ho
+    obtain ⟨c1, c2⟩ := cleared_step τ x a sp h op (fun e => hn (e ▸ List.mem_cons_self))
+    rw [run_cons] at ho
+    rcases List.mem_cons.mp ho with rfl | ho
+    · exact c2
+    · exact ih _ c1 (fun hm => hn (List.mem_cons_of_mem _ hm)) o ho
+
+private theorem cleared_remove (τ x) (a : Addr) (sp : Spec) : Cleared a (sp.step τ x (.remove a)).1 := by
+  cases hs : sp.status <;> simp only [Spec.step, hs]
+  · exact Or.inr (fun hm => by simpa using (List.mem_filter.mp hm).2)
+  · exact Or.inr (fun hm => by simpa using (List.mem_filter.mp hm).2)
+  · exact Or.inl rfl
+
+/-- **C01_removed_never_stops.**  After `remove a`, as long as `a` is not set again, no answer is `stop a`:
+whatever happened before (`pre`) and whatever is done afterwards (`post`, without `break a`). -/
+theorem C01_removed_never_stops (τ : List Addr) (entry : Addr) (orig : Code) (exitCode : Nat)
+    (pre post : List Op) (a : Addr)
+    (ho : Bytes orig) (hcc : ∀ a ∈ τ, orig a ≠ 0xCC) (hhead : τ.head? = some entry)
+    (hb : NoBreakAtEntry entry (pre ++ post)) (hr : NoRemoveAtEntry entry (pre ++ .remove a :: post))
+    (hpost : .brk a ∉ post) :
+    ∀ o ∈ (execAll (exec (execAll (init τ entry orig exitCode) pre).1 (.remove a)).1 post).2, o ≠ .stop a := by
+  have hb1 : NoBreakAtEntry entry pre := fun o h => hb o (List.mem_append_left _ h)
+  have hb2 : NoBreakAtEntry entry post := fun o h => hb o (List.mem_append_right _ h)
+  have hr1 : NoRemoveAtEntry entry pre := fun o h => hr o (List.mem_append_left _ h)
+  have hr2 : NoRemoveAtEntry entry post :=
+    fun o h => hr o (List.mem_append_right _ (List.mem_cons_of_mem _ h))
+  have hra : Op.remove a ≠ .remove entry := hr _ (List.mem_append_right _ List.mem_cons_self)
+  obtain ⟨_, s1⟩ := C01_simulation τ exitCode orig entry ho hcc hhead pre _ _ (C01_sim_init τ exitCode orig entry) hb1 hr1
+  obtain ⟨_, s2⟩ := C01_simulation_step τ exitCode orig entry ho hcc hhead _ _ s1 (.remove a) (by simp) hra
+  obtain ⟨s3, _⟩ := C01_simulation τ exitCode orig entry ho hcc hhead post _ _ s2 hb2 hr2
+  rw [s3]
+  exact cleared_run τ exitCode a post _ (cleared_remove τ exitCode a _) hpost
+
+private theorem spec_conts (τ x) : ∀ (m : Nat) (sp : Spec), sp.status = .inProgress →
+    ((τ.drop (sp.idx + 1)).filter (fun a => decide (a ∈ sp.B))).length = m →
+    (Spec.run τ x sp (List.replicate (m + 1) .cont)).2
+      = ((τ.drop (sp.idx + 1)).filter (fun a => decide (a ∈ sp.B))).map .stop ++ [.exit x] := by
+  intro m
+  induction m with
+  | zero =>
+    intro sp hs hm
+    have hnil := List.eq_nil_of_length_eq_zero hm
+    have hfd := filter_drop_firstFrom (fun a => decide (a ∈ sp.B)) τ (sp.idx + 1)
+    rw [hnil] at hfd
+    have hge : ¬ firstFrom (fun a => decide (a ∈ sp.B)) τ (sp.idx + 1) < τ.length := by
+      intro hlt; rw [dif_pos hlt] at hfd; cases hfd
+    have hj : τ[nextHit sp.B τ (sp.idx + 1)]? = none := List.getElem?_eq_none_iff.mpr (Nat.not_lt.mp hge)
+    rw [hnil]
+    show (Spec.run τ x sp [.cont]).2 = [.exit x]
+    simp only [Spec.run, Spec.step, hs, Spec.goto, hj]
+  | succ m ih =>
+    intro sp hs hm
+    have hfd := filter_drop_firstFrom (fun a => decide (a ∈ sp.B)) τ (sp.idx + 1)
+    have hlt : firstFrom (fun a => decide (a ∈ sp.B)) τ (sp.idx + 1) < τ.length := by
+      apply Classical.byContradiction; intro hge
+      rw [dif_neg hge] at hfd; rw [hfd] at hm; cases hm
+    rw [dif_pos hlt] at hfd
+    have hj : τ[nextHit sp.B τ (sp.idx + 1)]? = some τ[firstFrom (fun a => decide (a ∈ sp.B)) τ (sp.idx + 1)] :=
+      List.getElem?_eq_getElem hlt
+    have hstep : sp.step τ x .cont
+        = ({ sp with idx := nextHit sp.B τ (sp.idx + 1), status := .inProgress },
+           .stop τ[firstFrom (fun a => decide (a ∈ sp.B)) τ (sp.idx + 1)]) := by
+      simp only [Spec.step, hs, Spec.goto, hj]
+    rw [show List.replicate (m + 1 + 1) Op.cont = .cont :: List.replicate (m + 1) .cont from rfl, run_cons, hstep]
+    rw [hfd] at hm ⊢
+    have := ih { sp with idx := nextHit sp.B τ (sp.idx + 1), status := .inProgress } rfl
+      (by simpa [nextHit] using hm)
+    rw [this]; rfl
+
+/-- **C01_rearm_every_arrival.**  From any stop reached by any history `pre`, continuing until the exit reports
+exactly the later positions of the trace whose address is a breakpoint currently set (`sp.B`, the set maintained by
+the history), each of them, in trace order, then the exit: every arrival at a breakpoint address is reported, be
+it the 1st or the 1000th pass of a loop or a recursion (repeated pcs in `τ`), and nothing else is. -/
+theorem C01_rearm_every_arrival (τ : List Addr) (entry : Addr) (orig : Code) (exitCode : Nat) (pre : List Op)
+    (ho : Bytes orig) (hcc : ∀ a ∈ τ, orig a ≠ 0xCC) (hhead : τ.head? = some entry)
+    (hb : NoBreakAtEntry entry pre) (hr : NoRemoveAtEntry entry pre)
+    (hst : (execAll (init τ entry orig exitCode) pre).1.status = .inProgress) :
+    (execAll (execAll (init τ entry orig exitCode) pre).1
+        (List.replicate (((τ.drop ((execAll (init τ entry orig exitCode) pre).1.idx + 1)).filter
+          (fun a => decide (a ∈ (Spec.run τ exitCode {} pre).1.B))).length + 1) .cont)).2
+      = ((τ.drop ((execAll (init τ entry orig exitCode) pre).1.idx + 1)).filter
+          (fun a => decide (a ∈ (Spec.run τ exitCode {} pre).1.B))).map .stop ++ [.exit exitCode] := by
+  obtain ⟨_, s1⟩ := C01_simulation τ exitCode orig entry ho hcc hhead pre _ _ (C01_sim_init τ exitCode orig entry) hb hr
+  have hsp : (Spec.run τ exitCode {} pre).1.status = .inProgress := by rw [← C01_sim_status s1]; exact hst
+  have hidx : (execAll (init τ entry orig exitCode) pre).1.idx = (Spec.run τ exitCode {} pre).1.idx := by
+    obtain ⟨_, _, hm⟩ := s1
+    rw [hsp] at hm; exact hm.2.1
+  have hconts : ∀ n, NoBreakAtEntry entry (List.replicate n .cont) ∧ NoRemoveAtEntry entry (List.replicate n .cont) :=
+    fun n => ⟨fun o h => by rw [List.eq_of_mem_replicate h]; simp,
+              fun o h => by rw [List.eq_of_mem_replicate h]; simp⟩
+  obtain ⟨s2, _⟩ := C01_simulation τ exitCode orig entry ho hcc hhead _ _ _ s1 (hconts _).1 (hconts _).2
+  rw [s2, hidx]
+  exact spec_conts τ exitCode _ _ hsp rfl
+
+/-! ## Non-vacuity and sanity tests (the `#guard`s are tests, not proofs) -/
+
+/-- a loop `0x1004 0x1008` executed twice; the hypotheses of the theorems above are satisfiable -/
+example :
+    let τ : List Addr := [0x1000, 0x1004, 0x1008, 0x1004, 0x1008, 0x100c]
+    let orig : Code := fun _ => 0x90
+    let ops : List Op := [.brk 0x1004, .start, .cont, .remove 0x1004, .brk 0x1008, .cont, .cont]
+    Bytes orig ∧ (∀ a ∈ τ, orig a ≠ 0xCC) ∧ τ.head? = some 0x1000 ∧
+    NoBreakAtEntry 0x1000 ops ∧ NoRemoveAtEntry 0x1000 ops := by
+  refine ⟨fun _ => by show (0x90 : Nat) < 256; decide, fun _ _ => by show (0x90 : Nat) ≠ 0xCC; decide,
+    rfl, by decide, by decide⟩
+
+#guard (execAll (init [0x1000, 0x1004, 0x1008, 0x1004, 0x1008, 0x100c] 0x1000 (fun _ => 0x90) 7)
+    [.brk 0x1004, .start, .cont, .remove 0x1004, .brk 0x1008, .cont, .cont]).2
+  == [.ok, .stop 0x1004, .stop 0x1004, .ok, .ok, .stop 0x1008, .exit 7]
+#guard (Spec.run [0x1000, 0x1004, 0x1008, 0x1004, 0x1008, 0x100c] 7 {}
+    [.brk 0x1004, .start, .cont, .remove 0x1004, .brk 0x1008, .cont, .cont]).2
+  == [.ok, .stop 0x1004, .stop 0x1004, .ok, .ok, .stop 0x1008, .exit 7]
+
+/-! ## Why each hypothesis is there: the full statements are false of the model (witnesses evaluated by the kernel) -/
+
+/-- the projection statement without the two hypotheses about the entry address -/
+def C01_continue_projection_full : Prop :=
+  ∀ (τ : List Addr) (entry : Addr) (orig : Code) (exitCode : Nat) (ops : List Op),
+    Bytes orig → (∀ a ∈ τ, orig a ≠ 0xCC) → τ.head? = some entry →
+    (execAll (init τ entry orig exitCode) ops).2 = (Spec.run τ exitCode {} ops).2
+
+private theorem nop_bytes : Bytes (fun _ => 0x90) := fun _ => by show (0x90 : Nat) < 256; decide
+private theorem nop_nocc (τ : List Addr) : ∀ a ∈ τ, (fun _ => 0x90 : Code) a ≠ 0xCC :=
+  fun _ _ => by show (0x90 : Nat) ≠ 0xCC; decide
+
+/-- `break <entry>` before `start`: `enable_all_breakpoints` replaces the internal entry breakpoint by the user's, at
+the very moment it is being handled; the arrival at the entry address is never reported (model: `exit`, spec: `stop`).
+`NoRemoveAtEntry` holds on this witness, so `NoBreakAtEntry` is needed on its own. -/
+theorem C01_continue_projection_counterexample_break_at_entry :
+    ¬ C01_continue_projection_full ∧ NoRemoveAtEntry 0x1000 [.brk 0x1000, .start] ∧
+    (execAll (init [0x1000, 0x1004] 0x1000 (fun _ => 0x90) 0) [.brk 0x1000, .start]).2 = [.ok, .exit 0] ∧
+    (Spec.run [0x1000, 0x1004] 0 {} [.brk 0x1000, .start]).2 = [.ok, .stop 0x1000] := by
+  have h1 : (execAll (init [0x1000, 0x1004] 0x1000 (fun _ => 0x90) 0) [.brk 0x1000, .start]).2 = [.ok, .exit 0] := by
+    decide +kernel
+  have h2 : (Spec.run [0x1000, 0x1004] 0 {} [.brk 0x1000, .start]).2 = [.ok, .stop 0x1000] := by decide +kernel
+  refine ⟨fun h => ?_, by decide, h1, h2⟩
+  have := h [0x1000, 0x1004] 0x1000 (fun _ => 0x90) 0 [.brk 0x1000, .start] nop_bytes (nop_nocc _) rfl
+  rw [h1, h2] at this
+  exact absurd this (by decide)
+
+/-- `remove <entry>` while the debuggee runs: `remove_by_addr` does not look at the kind, answers `ok` and deletes the
+debugger's internal entry-point breakpoint (spec: `none`, there is no user breakpoint there).
+`NoBreakAtEntry` holds on this witness. -/
+theorem C01_continue_projection_counterexample_remove_at_entry :
+    NoBreakAtEntry 0x1000 [.brk 0x1004, .start, .remove 0x1000] ∧
+    (execAll (init [0x1000, 0x1004, 0x1008] 0x1000 (fun _ => 0x90) 0) [.brk 0x1004, .start, .remove 0x1000]).2
+      = [.ok, .stop 0x1004, .ok] ∧
+    (Spec.run [0x1000, 0x1004, 0x1008] 0 {} [.brk 0x1004, .start, .remove 0x1000]).2
+      = [.ok, .stop 0x1004, .none] := by
+  refine ⟨by decide, by decide +kernel, by decide +kernel⟩
+
+/-- if the trace does not start at the entry address, the user breakpoints before the first arrival at the entry
+address are not yet enabled (they are enabled when the entry breakpoint is hit) and are missed -/
+theorem C01_continue_projection_counterexample_entry_not_first :
+    (execAll (init [0x1004, 0x1000, 0x1008] 0x1000 (fun _ => 0x90) 0) [.brk 0x1004, .start]).2 = [.ok, .exit 0] ∧
+    (Spec.run [0x1004, 0x1000, 0x1008] 0 {} [.brk 0x1004, .start]).2 = [.ok, .stop 0x1004] := by
+  refine ⟨by decide +kernel, by decide +kernel⟩
+
+/-- a debuggee with an `int3` of its own on the trace makes the debugger meet a SIGTRAP it has no breakpoint for -/
+theorem C01_continue_projection_counterexample_own_int3 :
+    (execAll (init [0x1000, 0x1004] 0x1000 (fun a => if a = 0x1004 then 0xCC else 0x90) 0) [.start]).2
+      = [.corrupt] := by
+  decide +kernel
+
+/-- the text clause of the patch invariant without the restriction to live processes -/
+def C01_patch_inv_full : Prop :=
+  ∀ (τ : List Addr) (entry : Addr) (orig : Code) (exitCode : Nat) (ops : List Op), Bytes orig →
+    ∀ a, (execAll (init τ entry orig exitCode) ops).1.code a
+      = if (execAll (init τ entry orig exitCode) ops).1.active.any (fun b => b.addr == a && b.enabled)
+        then 0xCC else orig a
+
+/-- after the exit the registry is emptied (`disable_all_breakpoints`; its pokes fail, the process is gone) but the
+model keeps the last text: the text clause is only meaningful, and only claimed, while the process exists -/
+theorem C01_patch_inv_counterexample_after_exit : ¬ C01_patch_inv_full := by
+  intro h
+  have := h [0x1000, 0x1004] 0x1000 (fun _ => 0x90) 0 [.start] nop_bytes 0x1000
+  revert this
+  decide +kernel
+
+end BsVerif.Bp
